@@ -134,6 +134,7 @@ def correspondence(ctx: Ctx) -> None:
                     v = sp.version
                     v2 = v + ".0" if rng.random() < 0.5 or not v.endswith(".0") else v[:-2]
                     other = rng.choice(NAMES[:6]) + sp.operator + v2
+                    U.parse_requirement(other)      # e.g. `~=1` is not a requirement: keep the generated pair then
                     sa, sb = (sa, other) if rng.random() < 0.5 else (other, sa)
                     ctx.count("merge:trailing-zero-twin:" + sp.operator)
             except Exception:  # noqa: BLE001
